@@ -18,6 +18,7 @@ import Restful.Lemmas.StateShape
 import Restful.Lemmas.TieOrder
 import Restful.Lemmas.TieImpMatch
 import Restful.Lemmas.TieImpScore
+import Restful.Lemmas.TieImpTemplate
 namespace Restful
 namespace Props
 variable (E : ReEnv)
@@ -175,3 +176,4 @@ end Restful
 -- translation (tools/goimp, Gen/Imp.lean, regenerated on every run):
 -- also: Restful.TieImp.match_tokens
 -- also: Restful.TieImp.T2.webservice_score
+-- also: Restful.TieImp.template_to_regex
